@@ -145,6 +145,43 @@ pub fn prepare_in(b: &Behaviour, dna: &[u16], env: &Env) -> Option<Prepared> {
     if !(b.adjust)(&mut spec, &mut d) {
         return None;
     }
+    // E3: user functions named like identifiers of the generated code, used as `method = name`
+    if let (Some(pool), false) = (&env.names, env.shadow) {
+        let def = spec.render_def();
+        let mut methods: Vec<String> = Vec::new();
+        for f in spec.all_fields() {
+            for a in &f.attrs {
+                for (p, _) in &a.params {
+                    if let FParam::Method(m) = p {
+                        // plain single-identifier paths only, and nowhere spelled as part of a longer path
+                        if !m.is_empty() && m.chars().all(|c| c.is_alphanumeric() || c == '_') && !def.contains(&format!("::{m}")) && !def.contains(&format!("{m}::")) && !methods.contains(m) {
+                            methods.push(m.clone());
+                        }
+                    }
+                }
+            }
+        }
+        let mut user: Vec<String> = vec![spec.name.clone()];
+        user.extend(spec.gens.types.iter().map(|t| t.name.clone()));
+        user.extend(spec.gens.consts.iter().map(|t| t.name.clone()));
+        user.extend(spec.variants.iter().map(|v| v.name.clone()));
+        const RESERVED_FN: [&str; 14] = ["run", "obs", "vals", "variant_of", "main", "core", "std", "alloc", "prelude", "educe", "hostile", "fp", "same", "o"];
+        let lower: Vec<&String> = pool
+            .iter()
+            .filter(|n| n.chars().next().map(|c| c.is_lowercase()).unwrap_or(false) && !n.starts_with('_') && !user.contains(n) && !RESERVED_FN.contains(&n.as_str()))
+            .collect();
+        for m in methods {
+            if lower.is_empty() || !d.chance(50) {
+                continue;
+            }
+            let h = (*d.choose(&lower)).clone();
+            if spec.method_alias.iter().any(|(_, a)| *a == h) {
+                continue;
+            }
+            spec.extra_items.push(format!("#[allow(unused_imports)] use super::prelude::{m} as {h};"));
+            spec.method_alias.push((m, h));
+        }
+    }
     // requests that hit an open compile-level finding (owned by C01) are excluded by construction
     KNOWN_C01.with(|k| {
         if k.borrow().is_none() {
